@@ -2372,10 +2372,12 @@ func (resp *Response) writeBodyStream(w *bufio.Writer, sendBody bool) (err error
 				err = w.Flush()
 			}
 			if err == nil && sendBody {
+				// The trailer section is part of the chunked body, so it
+				// must not follow a response that has no body.
 				err = writeBodyChunked(w, resp.bodyStream)
-			}
-			if err == nil {
-				err = resp.Header.writeTrailer(w)
+				if err == nil {
+					err = resp.Header.writeTrailer(w)
+				}
 			}
 		}
 	}
